@@ -85,6 +85,7 @@ type Contract struct {
 	MapInvs   []MapInv
 	RevealIn  map[string][]string // obligation-name suffix -> opaque spec functions revealed for that obligation only
 	LocalTypes map[string]string  // local variable name -> required Go type (printed with package names)
+	AliasInst bool // (lemma functions) "snapshotinst": quantified facts are also instantiated through the array equalities that bind snapshots introduce
 	Skolemize map[string]bool // (lemma functions) callees whose postconditions (forall k. H) ==> C are assumed as H(sk) ==> C
 	CallerEnsures []CallerClause  // postconditions known to callers only (ghost definitions; clauses justified by a lemma function)
 }
@@ -444,6 +445,8 @@ func (lib *SpecLib) loadFile(path, prefix string) error {
 					return bad(err)
 				}
 				cur.Ensures = append(cur.Ensures, c)
+			case "snapshotinst":
+				cur.AliasInst = true
 			case "skolemize":
 				if cur.Skolemize == nil {
 					cur.Skolemize = map[string]bool{}
